@@ -114,38 +114,38 @@ Definition complete_leaf (c : cfg) (cur_ok : bool) (s1 s2 : bst) (p : Z) (bad : 
 (* sequential execution of an action list on the breaker of Model/Breaker.v: one caller, so a
    CAS succeeds exactly when the state word holds the expected value                        *)
 
-Record seqst := { sb : breaker; sev : list tev; shook : bool }.
+Record seqst := { q_b : breaker; q_ev : list tev; q_hook : bool }.
 
 Definition prim (c : cfg) (now : Z) (s : seqst) (a : bact) : seqst :=
-  let b := sb s in
+  let b := q_b s in
   match a with
   | ACas f t =>
       if bst_eqb (state b) f
-      then {| sb := {| state := t; next_retry := next_retry b; cur_probe := cur_probe b; slots := slots b;
+      then {| q_b := {| state := t; next_retry := next_retry b; cur_probe := cur_probe b; slots := slots b;
                        ghist := match t with Closed => [] | _ => ghist b end |};
-              sev := sev s; shook := shook s |}
+              q_ev := q_ev s; q_hook := q_hook s |}
       else s
   | AStoreRetry v =>
-      {| sb := {| state := state b; next_retry := v; cur_probe := cur_probe b; slots := slots b; ghist := ghist b |};
-         sev := sev s; shook := shook s |}
+      {| q_b := {| state := state b; next_retry := v; cur_probe := cur_probe b; slots := slots b; ghist := ghist b |};
+         q_ev := q_ev s; q_hook := q_hook s |}
   | AUpdateRetry =>
-      {| sb := {| state := state b; next_retry := retry_value now (retry_ms c); cur_probe := cur_probe b;
+      {| q_b := {| state := state b; next_retry := retry_value now (retry_ms c); cur_probe := cur_probe b;
                   slots := slots b; ghist := ghist b |};
-         sev := sev s; shook := shook s |}
+         q_ev := q_ev s; q_hook := q_hook s |}
   | AAddProbe =>
-      {| sb := {| state := state b; next_retry := next_retry b; cur_probe := cur_probe b + 1; slots := slots b; ghist := ghist b |};
-         sev := sev s; shook := shook s |}
+      {| q_b := {| state := state b; next_retry := next_retry b; cur_probe := cur_probe b + 1; slots := slots b; ghist := ghist b |};
+         q_ev := q_ev s; q_hook := q_hook s |}
   | AResetProbe =>
-      {| sb := {| state := state b; next_retry := next_retry b; cur_probe := 0; slots := slots b; ghist := ghist b |};
-         sev := sev s; shook := shook s |}
-  | ANotifyOpen p sn => {| sb := b; sev := sev s ++ [TEv p Open (Some sn)]; shook := shook s |}
-  | ANotifyHalf p => {| sb := b; sev := sev s ++ [TEv p HalfOpen None]; shook := shook s |}
-  | ANotifyClosed p => {| sb := b; sev := sev s ++ [TEv p Closed None]; shook := shook s |}
+      {| q_b := {| state := state b; next_retry := next_retry b; cur_probe := 0; slots := slots b; ghist := ghist b |};
+         q_ev := q_ev s; q_hook := q_hook s |}
+  | ANotifyOpen p sn => {| q_b := b; q_ev := q_ev s ++ [TEv p Open (Some sn)]; q_hook := q_hook s |}
+  | ANotifyHalf p => {| q_b := b; q_ev := q_ev s ++ [TEv p HalfOpen None]; q_hook := q_hook s |}
+  | ANotifyClosed p => {| q_b := b; q_ev := q_ev s ++ [TEv p Closed None]; q_hook := q_hook s |}
   | AResetMetric =>
-      {| sb := {| state := state b; next_retry := next_retry b; cur_probe := cur_probe b;
+      {| q_b := {| state := state b; next_retry := next_retry b; cur_probe := cur_probe b;
                   slots := la_clear (gn c) (gbl c) now (slots b); ghist := ghist b |};
-         sev := sev s; shook := shook s |}
-  | AHookExit => {| sb := b; sev := sev s; shook := true |}
+         q_ev := q_ev s; q_hook := q_hook s |}
+  | AHookExit => {| q_b := b; q_ev := q_ev s; q_hook := true |}
   | _ => s      (* composite actions are expanded by [seq_act]; the counter adds are on_complete's sl2 *)
   end.
 
@@ -160,10 +160,10 @@ Definition expand (st : bst) (a : bact) : list bact :=
   end.
 
 Definition seq_act (c : cfg) (now : Z) (s : seqst) (a : bact) : seqst :=
-  fold_left (prim c now) (expand (state (sb s)) a) s.
+  fold_left (prim c now) (expand (state (q_b s)) a) s.
 
 Definition seq_run (c : cfg) (now : Z) (b : breaker) (acts : list bact) : seqst :=
-  fold_left (seq_act c now) acts {| sb := b; sev := []; shook := false |}.
+  fold_left (seq_act c now) acts {| q_b := b; q_ev := []; q_hook := false |}.
 
 (* ---------------------------------------------------------------------------------- *)
 (* the pc machine of Model/BreakerConc.v: which yield point an action stops at, and the pc at
